@@ -132,8 +132,9 @@ pub unsafe extern "C" fn munmap(addr: *mut c_void, len: size_t) -> c_int {
 
 #[no_mangle]
 pub unsafe extern "C" fn write(fd: c_int, buf: *const c_void, count: size_t) -> ssize_t {
-	if pdbv::iotrack::eio_fd(fd) {
-		return eio() as ssize_t
+	if pdbv::iotrack::eio_write_fd(fd) {
+		*libc::__errno_location() = if pdbv::iotrack::EIO_WRITES_ONLY.load(Ordering::Relaxed) { libc::ENOSPC } else { libc::EIO };
+		return -1
 	}
 	real!("write", unsafe extern "C" fn(c_int, *const c_void, size_t) -> ssize_t)(fd, buf, count)
 }
